@@ -28,14 +28,18 @@ const (
 	HistogramMetricType
 )
 
-type NameHash uint64
+// NameHash and ValueHash identify a set of label names and a set of label
+// name/value pairs. They hold the separator-joined strings themselves and not
+// a 64-bit hash of them: the registry uses them as map keys, and two different
+// label sets with the same hash would be taken for the same vector or series.
+type NameHash string
 
-type ValueHash uint64
+type ValueHash string
 
 type LabelHash struct {
-	// This is a hash over the label names
+	// This identifies the label names
 	Names NameHash
-	// This is a hash over the label names + label values
+	// This identifies the label names + label values
 	Values ValueHash
 }
 
@@ -55,9 +59,9 @@ type Metric struct {
 	// Help is the help string of the first vector registered under this name;
 	// all vectors of one metric family have to share it
 	Help string
-	// Vectors key is the hash of the label names
+	// Vectors key identifies the label names
 	Vectors map[NameHash]*Vector
-	// Metrics key is a hash of the label names + label values
+	// Metrics key identifies the label names + label values
 	Metrics map[ValueHash]*RegisteredMetric
 }
 
